@@ -11,6 +11,7 @@ import (
 	"time"
 
 	"github.com/mimecast/dtail/internal/config"
+	maprserver "github.com/mimecast/dtail/internal/mapr/server"
 	serverHandlers "github.com/mimecast/dtail/internal/server/handlers"
 	user "github.com/mimecast/dtail/internal/user/server"
 )
@@ -134,5 +135,20 @@ func init() {
 			l = 1
 		}
 		return fmt.Sprintf("errs=%d;lines=%d", atomic.LoadInt32(&errs), l)
+	}
+}
+
+func init() {
+	// c10.query <query> : what newMapCommand does with the client's query text: server.NewAggregate
+	// (NewQuery, choice of the log format parser).  Outcome class: ok / err / PANIC (recovered by the
+	// harness; in the server it would kill the process).
+	ops["c10.query"] = func(a []string) string {
+		config.Server.MapreduceLogFormat = "default"
+		agg, err := maprserver.NewAggregate(string(unhex(a[0])))
+		if err != nil {
+			return "err"
+		}
+		agg.Shutdown()
+		return "ok"
 	}
 }
